@@ -82,6 +82,13 @@ type Case struct {
 	// AccountsFaultEvery: at every k-th reorg the accounts provider fails (alternately with an error
 	// and with an empty result) while the head event is handled, i.e. during the duty refresh (0: never)
 	AccountsFaultEvery uint64 `json:"accounts_fault_every,omitempty"`
+	// FaultKind/FaultFrom/FaultLen: a sustained fault: from epoch FaultFrom of the run, for FaultLen epochs,
+	// every attestation fails at one point (att-data: no node supplies attestation data; att-sign: the
+	// signer fails; att-submit: submission fails), or every sync committee message fails (sync-message),
+	// or every beacon committee subscription fails (subscription).  "" : no such phase.
+	FaultKind string `json:"fault_kind,omitempty"`
+	FaultFrom uint64 `json:"fault_from,omitempty"`
+	FaultLen  uint64 `json:"fault_len,omitempty"`
 }
 
 // pattern is the node's duty source: plain arithmetic on (epoch, version).
@@ -181,6 +188,15 @@ func genCase(t *rapid.T) Case {
 	c.Strategy = rapid.SampledFrom([]string{"first", "first", "best", "best", "majority"}).Draw(t, "strategy")
 	c.RootStrategy = rapid.SampledFrom([]string{"first", "first", "majority", "latest"}).Draw(t, "rootStrategy")
 	c.AccountsFaultEvery = rapid.SampledFrom([]uint64{0, 1, 2, 3}).Draw(t, "accountsFaultEvery")
+	c.FaultKind = rapid.SampledFrom([]string{"", "", "", "att-data", "att-sign", "att-submit", "sync-message", "subscription"}).Draw(t, "faultKind")
+	if c.FaultKind != "" {
+		// the whole second half of the run, or its third quarter and most of the fourth (then recovery)
+		c.FaultFrom = c.Epochs / 2
+		c.FaultLen = c.Epochs - c.FaultFrom
+		if rapid.Bool().Draw(t, "faultRecovers") {
+			c.FaultLen -= rapid.Uint64Range(2, 6).Draw(t, "recoveryEpochs")
+		}
+	}
 	c.RealScheduler = rapid.IntRange(0, 2).Draw(t, "realScheduler") == 0
 	c.Providers = rapid.IntRange(2, 4).Draw(t, "providers")
 	c.NodeMix = rapid.SampledFrom([]string{"healthy", "late", "same-instant", "some-never", "mixed", "mixed"}).Draw(t, "nodeMix")
@@ -223,8 +239,9 @@ func (p *stratProposer) Propose(ctx context.Context, duty *beaconblockproposer.D
 // stratAttAggregator is an attestationaggregator.Service that asks the real
 // aggregateattestation strategy for the aggregate.
 type stratAttAggregator struct {
-	w   *c03world.World
-	prv eth2client.AggregateAttestationProvider
+	w      *c03world.World
+	prv    eth2client.AggregateAttestationProvider
+	faulty func(string) bool
 }
 
 func (a *stratAttAggregator) Aggregate(ctx context.Context, d *attestationaggregator.Duty) {
@@ -233,6 +250,9 @@ func (a *stratAttAggregator) Aggregate(ctx context.Context, d *attestationaggreg
 }
 
 func (a *stratAttAggregator) AggregatorsAndSignatures(_ context.Context, accounts []e2wtypes.Account, slot phase0.Slot, _ []uint64) ([]phase0.BLSSignature, []bool, error) {
+	if a.faulty != nil && a.faulty("subscription") {
+		return nil, nil, errors.New("scripted slot selection failure")
+	}
 	sigs := make([]phase0.BLSSignature, len(accounts))
 	is := make([]bool, len(accounts))
 	for i, acc := range accounts {
@@ -388,7 +408,7 @@ func (r *runner) services(ctx context.Context, w *c03world.World, sched schedule
 
 	att, err := standardattester.New(ctx, standardattester.WithLogLevel(lvl), standardattester.WithProcessConcurrency(4), standardattester.WithChainTime(w.Clock),
 		standardattester.WithSpecProvider(w.Node), standardattester.WithAttestationDataProvider(attData), standardattester.WithAttestationsSubmitter(r.sink),
-		standardattester.WithMonitor(mon), standardattester.WithValidatingAccountsProvider(w.Accounts), standardattester.WithBeaconAttestationsSigner(fakeSigner{onAttest: r.whileAttesting}))
+		standardattester.WithMonitor(mon), standardattester.WithValidatingAccountsProvider(w.Accounts), standardattester.WithBeaconAttestationsSigner(fakeSigner{onAttest: r.whileAttesting, faulty: r.faulty}))
 	if err != nil {
 		return s, err
 	}
@@ -407,7 +427,7 @@ func (r *runner) services(ctx context.Context, w *c03world.World, sched schedule
 	if err != nil {
 		return s, err
 	}
-	attAgg := &stratAttAggregator{w: w, prv: aggAtt}
+	attAgg := &stratAttAggregator{w: w, prv: aggAtt, faulty: r.faulty}
 	sub, err := standardsubscriber.New(ctx, standardsubscriber.WithLogLevel(lvl), standardsubscriber.WithProcessConcurrency(4), standardsubscriber.WithMonitor(mon),
 		standardsubscriber.WithChainTimeService(w.Clock), standardsubscriber.WithAttesterDutiesProvider(w.Node), standardsubscriber.WithAttestationAggregator(attAgg),
 		standardsubscriber.WithBeaconCommitteeSubmitter(r.sink))
@@ -586,6 +606,20 @@ func (r *runner) checkPending() {
 		r.stale[a.slot] = true
 		r.add(a.sig, "%s%s", a.msg, r.history(a.slot))
 	}
+}
+
+// faulty reports whether the sustained fault of the given kind is in force now.
+func (r *runner) faulty(kind string) bool {
+	c := r.c
+	if c.FaultKind != kind || r.w == nil {
+		return false
+	}
+	e := r.w.Epoch()
+	if e < c.StartEpoch {
+		return false
+	}
+	e -= c.StartEpoch
+	return e >= c.FaultFrom && e < c.FaultFrom+c.FaultLen
 }
 
 // whileAttesting is called by the signer double when the attester asks for the
@@ -800,7 +834,8 @@ func (r *runner) run() error {
 		}
 		return r.w.Slot()
 	}
-	r.sink = &sink{}
+	r.sink = &sink{faulty: r.faulty}
+	r.pool.faulty = r.faulty
 	r.parked = 0
 	r.series = map[string][]int{}
 	r.stale = map[uint64]bool{}
@@ -1051,6 +1086,7 @@ func check(t ev.TB, c *Case) {
 	add(r.pool != nil && r.pool.never.Load() > 0, "node-never-answered")
 	add(r.overlaps > 0, "overlapping-duty-refreshes")
 	add(r.accountFaults > 0, "accounts-provider-fault-during-refresh")
+	add(c.FaultKind != "", "sustained-fault:"+c.FaultKind)
 	add(true, "root-strategy:"+c.RootStrategy)
 	add(c.DutyOff > 0, "duty-gaps-of-two-or-more-epochs")
 	add(c.RealScheduler, "real-advanced-scheduler")
